@@ -7,4 +7,4 @@ CONSTANTS
   TxMode = TRUE
   Dev = {"no_rollback_at_checkin"}
   MaxMsgs = 3
-INVARIANTS TypeOK ExclusiveHold CleanHandoff IdleIsClean Bounded NoLeak MapSound BeliefSound HoldsOnlyInTx
+INVARIANTS TypeOK ExclusiveHold CleanHandoff IdleIsClean Bounded NoLeak MapSound MapComplete BeliefSound HoldsOnlyInTx
